@@ -47,6 +47,11 @@ def process_level(res, tier):
                                 cases.append((steps, n, sx, sy, si, q0, p0, rf, per, 45000.0, 9, None))
                             # RF voltages close to the radiation loss per turn (45.5 kV for the default ring): the synchronous phase is far from zero,
                             # the focusing slope of the sinusoidal voltage is V_RF cos(phi_s) - the rotation angle per step must not depend on it
+                            # other rings: low energy with a small momentum compaction (1/gamma^2 is 9 % of alpha0), given by alpha0 and given by -f;
+                            # a high-energy ring with other harmonic number, revolution frequency and voltage
+                            if per == "Ts" and (sx, sy) == shifts[0] and si == 0:
+                                for ring in (("--BeamEnergy", 1e8, "--alpha0", 3e-4), ("--BeamEnergy", 1e8), ("--BeamEnergy", 2.5e9, "--HarmonicNumber", 184, "--RevolutionFrequency", 2.7e6, "--AcceleratingVoltage", 1.4e6, "--BendingRadius", 5.559, "--alpha0", 9e-3)):
+                                    cases.append((steps, n, sx, sy, si, q0, p0, rf, per, 45000.0, 12, ring))
                             if per == "Ts" and (sx, sy) == shifts[0] and si == 0:
                                 for vrf in (3e5, 1.5e5):     # (at 100 kV an amplitude of 0.25 is no longer small: the potential is visibly asymmetric)
                                     cases.append((steps, n, sx, sy, si, q0, p0, rf, per, 45000.0, 12, vrf))
@@ -54,12 +59,16 @@ def process_level(res, tier):
     def do(c):
         steps, n, sx, sy, si, q0, p0, rf, per, fs, pq, vrf = c
         sc = 1.0 if rf == "linear" else 0.25
-        tag = "s%d_n%d_%g_%g_%d_%s_%s_%g_%g_%s" % (steps, n, sx, sy, si, rf, per, fs, pq, vrf)
+        tag = "s%d_n%d_%g_%g_%d_%s_%s_%g_%g_%s" % (steps, n, sx, sy, si, rf, per, fs, pq, abs(hash(vrf)) if isinstance(vrf, tuple) else vrf)
         start = os.path.join(wd, "start_%s.h5" % tag)
-        pl.write_start_h5(start, n, gauss_start(n, sx, sy, q0 * sc, p0 * sc, 0.4 if vrf else 0.7))   # low voltage: a short blob (the voltage's curvature over a long one moves the centre of the rotation)
+        pl.write_start_h5(start, n, gauss_start(n, sx, sy, q0 * sc, p0 * sc, 0.4 if (vrf and not isinstance(vrf, tuple)) else 0.7))   # low voltage: a short blob (the voltage's curvature over a long one moves the centre of the rotation)
         a = ["-s", n, "-T", 1, "-n", 1, "-G", 0, "-d", 0, "--FPType", 0, "--RenormalizeCharge", -1, "-i", start, "-f", fs,
              "--PhaseSpaceShiftX", sx, "--PhaseSpaceShiftY", sy, "--InterpolationPoints", 4, "--LinearRF", "true" if rf == "linear" else "false", "--padding", 2, "--PhaseSpaceSize", pq]
-        if vrf:
+        if isinstance(vrf, tuple):          # ring parameters
+            a += list(vrf)
+            if "--alpha0" in vrf:            # the synchrotron frequency follows from alpha0, not the other way round
+                i = a.index("-f"); del a[i:i + 2]
+        elif vrf:
             a += ["--AcceleratingVoltage", vrf]
         if per == "Ts":
             a += ["-N", steps]
@@ -76,8 +85,8 @@ def process_level(res, tier):
 
     for c, r, doc in pl.pmap(do, cases):
         steps, n, sx, sy, si, q0, p0, rf, per, fs, pq, vrf = c
-        case = "process steps=%d n=%d shift=%g,%g start=%d rf=%s stepsper=%s fs=%g%s%s" % (steps, n, sx, sy, si, rf, per, fs, "" if pq == 12 else " phasespacesize=%g" % pq, " V_RF=%g" % vrf if vrf else "")
-        rp = dict(cmd=r["cmd"], note="start file: Gaussian blob at (%g,%g)*%s, width %s, written by tools/h5json --write" % (q0, p0, "1" if rf == "linear" else "0.25", "0.4" if vrf else "0.7"))
+        case = "process steps=%d n=%d shift=%g,%g start=%d rf=%s stepsper=%s fs=%g%s%s" % (steps, n, sx, sy, si, rf, per, fs, "" if pq == 12 else " phasespacesize=%g" % pq, (" ring=%s" % "_".join(str(x).strip("-") for x in vrf)) if isinstance(vrf, tuple) else " V_RF=%g" % vrf if vrf else "")
+        rp = dict(cmd=r["cmd"], note="start file: Gaussian blob at (%g,%g)*%s, width %s, written by tools/h5json --write" % (q0, p0, "1" if rf == "linear" else "0.25", "0.4" if (vrf and not isinstance(vrf, tuple)) else "0.7"))
         if doc is None or "error" in doc:
             res.violate("C03/process/run-failed", case, "rc=%s %s" % (r["rc"], r["log"][-200:]), replay=rp)
             continue
@@ -86,7 +95,7 @@ def process_level(res, tier):
         res.eval(case, pl.chash(case, q, p), trivial=False)
         a = 2 * math.pi / steps
         dq = float(pq) / (n - 1)
-        key = "C03/process/%s/%s/%s" % (rf, "StepsPerRevolution" if per == "rev" else "StepsPerTs", "shifted" if (sx or sy) else "centred") + ("/low-RF-voltage" if vrf else "")
+        key = "C03/process/%s/%s/%s" % (rf, "StepsPerRevolution" if per == "rev" else "StepsPerTs", "shifted" if (sx or sy) else "centred") + ("/other-ring" if isinstance(vrf, tuple) else "/low-RF-voltage" if vrf else "")
         if len(q) < steps + 1:
             res.violate(key + "/records", case, "%d records for %d steps" % (len(q), steps), replay=rp)
             continue
